@@ -53,9 +53,41 @@ CHECKS = {
             "For converged runs with non-empty clusters the index is recomputed with the column-wise centroid; the tree's "
             "scalar-centre behaviour is a recorded known finding matched by an executable deviation model, so any other "
             "discrepancy (degrees of freedom, dispersion) is still a violation."),
+
+    "C08": ("exploration", "5/C08", "deterministic simulation: Hypothesis rule-based state machine over real model states with the member draw behind a simulator seam + every repopulation event of traced swarm runs, judged by predicates",
+            "Adversarial size vectors (boundaries 0,1,2,m-1,m,2m-1,2m,3m-1,3m,3m+2), spread orderings with ties, any m-subset "
+            "as the random draw, repeated application; predicates (not a re-implementation) for conservation, refill size, "
+            "donor eligibility/retention, move direction, bystanders, donor order, input immutability and raise-iff-capacity-"
+            "insufficient; the same predicates on every repopulation event of seeded swarm runs."),
+    "C13": ("exploration", "5/C13", "deterministic simulation: Hypothesis rule-based state machine over the container API and phase functions keeping every state ever produced + the same invariant on every phase boundary of traced runs",
+            "Operation histories (assign labels, shallow/deep copy, repopulate, update statistics, optimise via direct-mode "
+            "SimPool, relabel) over real ModelState objects; after every operation: partition consistency of the new state, "
+            "no earlier state changed at any distance, deep copies share no mutable object (identity/memory walk). The same "
+            "checks at every phase boundary of seeded swarm runs, incl. a second look at every state when the call is over."),
+    "C15": ("exploration", "5/C15", "deterministic simulation: same seeded runs in three execution modes fixed at interpreter start (JIT, JIT disabled, injected numba import failure) compared round by round; simulated prange schedules; observed JIT thread-count sweep",
+            "The same seeds run in JIT, NUMBA_DISABLE_JIT and numba-absent worker interpreters; per-round labels, costs and "
+            "likelihood tables plus two kernel-level calls are compared across modes with derived rounding tolerances (label "
+            "ties excused only when both labellings are optimal for both tables). Interpreted modes: seeded permutation of the "
+            "parallel loop. JIT: thread counts 1,2,4,8,16 bit-compared (observation, not scheduling)."),
+    "C18": ("exploration", "5/C18", "deterministic simulation: paired replays of one seeded run under equivalent parameter forms, bit-compared; counterfactual seam for the known summation-order finding",
+            "Scalar vs constant-matrix lambda, scalar vs constant-vector beta, and int/float/NumPy-scalar forms of each scalar "
+            "hyper-parameter (only where the type represents the value exactly), end to end and at the optimiser entry point; "
+            "bitwise comparison of whole results. Configuration-only: simulation contributes comparability."),
+    "C19": ("fault_enumeration", "5/C19", "deterministic simulation with fault injection: byte snapshots of caller-owned objects around every simulated call incl. calls aborted at enumerated fault points; SimPool direct mode exposes worker-side writes",
+            "Series, their list, matrix lambda and vector beta in C/Fortran/strided/read-only layouts are snapshotted "
+            "(bytes, shape, strides, dtype, flags) around successful calls, calls aborted by faults injected at points "
+            "enumerated from the clean run, direct-mode runs (no pickling barrier), a few real-pool runs, and direct calls "
+            "of the optimiser entry point / labelling step with read-only copies of arrays recorded in the run."),
+    "C20": ("fault_enumeration", "5/C20", "deterministic simulation with fault injection: a fault at every (round, cluster) task and every phase boundary of a base run in turn, under random SimPool schedules and the real fork pool, followed by a clean call",
+            "For each sampled base configuration the clean traced run defines the finite set of fault points (task "
+            "before/after/unpicklable result, phase before/after); each is exercised (all in thorough, a seeded third in "
+            "quick) under a random simulated schedule and a subset under the real pool: the call must raise the injected "
+            "error, return nothing, not deadlock, release the pool at the instant it raises (real pool: no live child), "
+            "and a following clean call must be bit-identical to the same call made before. Plus double faults, no-donor "
+            "and wrong-front-end failures."),
 }
 
-PENDING = {k: 'check under construction in this round (claimed in DESIGN.md section 5); not yet registered' for k in ('C08','C13','C15','C18','C19','C20')}
+PENDING = {}
 
 NA = {
     "C01": "pure function of (cost table, beta): no schedule, fault, RNG draw or history enters it; quantifier ranges over tables no run produces; its run-level consequence (each round's labelling optimal for that round's table) is checked under C09",
